@@ -218,6 +218,9 @@ type c06case struct {
 	ridLabel map[onet.RosterID]int
 	tidReal  map[int]onet.TreeID
 	tidLabel map[onet.TreeID]int
+	// rosters made by Concat from a base roster (op `sibling` derives another roster from the same base)
+	bases map[int]*onet.Roster
+	lists map[int][]*network.ServerIdentity
 }
 
 func (cc *c06case) realTid(l int) onet.TreeID {
@@ -686,7 +689,31 @@ func c06exec(c *h.Ctx, cs *h.Case) {
 				}
 				var ro *onet.Roster
 				if _, bound := cc.ridReal[id]; !bound && genuine && len(sis) > 0 && id != 0 {
-					ro = onet.NewRoster(sis)
+					distinctIDs := true
+					seenID := map[network.ServerIdentityID]bool{}
+					for _, si := range sis {
+						distinctIDs = distinctIDs && !seenID[si.ID]
+						seenID[si.ID] = true
+					}
+					if len(sis) >= 2 && distinctIDs {
+						// the roster is derived as applications derive theirs: a base roster (over a slice with
+						// spare capacity) extended by Concat; `sibling` later derives another roster from the base
+						base := make([]*network.ServerIdentity, len(sis)-1, len(sis)+3)
+						copy(base, sis)
+						b := onet.NewRoster(base)
+						ro = b.Concat(sis[len(sis)-1])
+						if cc.bases == nil {
+							cc.bases, cc.lists = map[int]*onet.Roster{}, map[int][]*network.ServerIdentity{}
+						}
+						cc.bases[l] = b
+						cc.lists[l] = append([]*network.ServerIdentity{}, sis...)
+						if want := onet.NewRoster(sis); ro == nil || !ro.ID.Equal(want.ID) || len(ro.List) != len(sis) {
+							cs.Fail("roster-id", "Concat of a base roster and one more server is not the roster NewRoster makes of the whole list")
+							ro = want
+						}
+					} else {
+						ro = onet.NewRoster(sis)
+					}
 					if g, err := ro.GetID(); err != nil || !g.Equal(ro.ID) {
 						cs.Fail("roster-id", "GetID differs from NewRoster's id")
 					}
@@ -710,6 +737,7 @@ func c06exec(c *h.Ctx, cs *h.Case) {
 					}
 				}
 				cc.rosters[l] = ro
+				cc.rtag[ro] = tag
 				obs = "ok"
 			case "tree":
 				if len(tk) != 6 {
@@ -761,6 +789,32 @@ func c06exec(c *h.Ctx, cs *h.Case) {
 				obs = cc.showTree(t)
 				if d := cc.aggCheck(t); d != "" {
 					cs.Fail("aggregate-wrong", d+" — "+op)
+				}
+			case "sibling":
+				// `sibling <roster label> <server label>`: another roster is derived (Concat) from the base the
+				// roster was derived from; the roster, and every tree over it, must be what they were
+				if len(tk) != 4 {
+					return
+				}
+				rl, ok1 := atoi(tk[2])
+				sl, ok2 := atoi(tk[3])
+				ro, ok3 := cc.rosters[rl]
+				if !ok1 || !ok2 || !ok3 || sl >= c06maxServers {
+					return
+				}
+				obs = "ok"
+				b, ok := cc.bases[rl]
+				if !ok {
+					return // not derived from a base: nothing to derive a sibling from
+				}
+				b.Concat(cc.su.ident(sl, sl+1, cc.rtag[ro]%2 == 1))
+				b.Concat(cc.su.ident((sl+1)%c06maxServers, (sl+1)%c06maxServers+1, cc.rtag[ro]%2 == 1), cc.su.ident(sl, sl+1, cc.rtag[ro]%2 == 1))
+				same := len(ro.List) == len(cc.lists[rl])
+				for i := 0; same && i < len(ro.List); i++ {
+					same = ro.List[i] == cc.lists[rl][i]
+				}
+				if g, err := ro.GetID(); !same || err != nil || !g.Equal(ro.ID) {
+					cs.Fail("roster-changed-by-sibling-derivation", "deriving another roster (Concat) from the same base changed the members of a roster already in use (its id no longer is the id of its list) — "+op)
 				}
 			case "gtree":
 				// the tree is made by the real generator GenerateNaryTreeWithRoot(N, ro.List[root]); the
@@ -1098,6 +1152,16 @@ func c06exec(c *h.Ctx, cs *h.Case) {
 					return
 				}
 				before := snapshot()
+				parkedBefore := 0
+				if tm, isTM := msg.(*onet.TreeMarshal); isTM {
+					for _, tids := range ovl.VerifC06Pending() {
+						for _, id := range tids {
+							if id.Equal(tm.TreeID) {
+								parkedBefore++
+							}
+						}
+					}
+				}
 				ovl.Process(&network.Envelope{ServerIdentity: env.peerSI, MsgType: ty, Msg: m2, Size: network.Size(len(buf))})
 				got, ok := env.replies()
 				if !ok {
@@ -1125,6 +1189,22 @@ func c06exec(c *h.Ctx, cs *h.Case) {
 					}
 				}
 				checkStore(before, true, op)
+				if tm, isTM := msg.(*onet.TreeMarshal); isTM {
+					// a deprecated description is parked (and a roster asked for) only for a tree this server
+					// is waiting for: parked otherwise, it is stored by a later roster message although nobody
+					// asked for it (e.g. once the present tree has expired)
+					parkedAfter := 0
+					for _, tids := range ovl.VerifC06Pending() {
+						for _, id := range tids {
+							if id.Equal(tm.TreeID) {
+								parkedAfter++
+							}
+						}
+					}
+					if old, was := before[tm.TreeID]; parkedAfter > parkedBefore && !(was && old == nil) {
+						cs.Fail("unsolicited-description-parked", "a tree description nobody is waiting for (its tree is present, or was never requested) was parked for its roster — "+op)
+					}
+				}
 				if rt, ok := msg.(*onet.ResponseTree); ok && rt.TreeMarshal != nil && !rt.TreeMarshal.TreeID.IsNil() {
 					// a requested ResponseTree: what is stored must be the description rebuilt over the
 					// roster that came WITH it — or nothing, when the two do not fit
@@ -1524,6 +1604,8 @@ func c06gen(c *h.Ctx, yield func(*h.Case)) {
 					}
 					ops = append(ops, c06gtreeOp(lab, lab, ro, N, root), fmt.Sprintf("c06 marshal-rt %d 1", lab), fmt.Sprintf("c06 binary-rt %d", lab))
 				}
+				// another roster derived from the base of roster 1: roster 1 and the trees over it stay what they are
+				ops = append(ops, fmt.Sprintf("c06 sibling 1 %d", c06maxServers-1), "c06 marshal-rt 1 1", "c06 binary-rt 1", "c06 marshal-rt 14 1")
 				// Tree.Equal; a tree value without roster; bytes that are no description / no binary form;
 				// a binary form whose roster was exchanged for another, or dropped
 				// tree 13 claims the id of tree 1 and differs from it somewhere below (or, for a single node, at) the root
@@ -1657,7 +1739,10 @@ func c06gen(c *h.Ctx, yield func(*h.Case)) {
 			ops = append(ops, resp(t1, 1, 1), "c06 h.msg tm "+t1.desc(1, 1), "c06 h.msg roster 1", "c06 h.request 2", resp(t1, 1, 1), "c06 h.msg reqtree 1 1")
 			emit("history unsolicited", ops)
 		case 2: // a present tree is not replaced (the repaired defect)
-			ops = append(ops, "c06 h.register 1", resp(t5, 1, 1), "c06 h.msg tm "+t5.desc(1, 1), "c06 h.msg roster 1", "c06 h.msg reqtree 1 1")
+			ops = append(ops, "c06 h.register 1", resp(t5, 1, 1), "c06 h.msg tm "+t5.desc(1, 1), "c06 h.msg roster 1", "c06 h.msg reqtree 1 1",
+				// an unsolicited description for a tree that is present must be refused at the entrance, not parked:
+				// parked, it would be stored by the next roster message once the tree has expired
+				"c06 h.msg tm "+t5.desc(1, 1), "c06 h.expire 1", "c06 h.msg roster 1", "c06 h.msg reqtree 1 1")
 			emit("history overwrite", ops)
 		case 3: // deprecated: description first, roster on request
 			ops = append(ops, "c06 h.request 1", "c06 h.msg tm "+t1.desc(1, 1), "c06 h.msg tm "+t1.desc(1, 1), "c06 h.msg roster 2", "c06 h.msg roster 1", "c06 h.msg roster 1", "c06 h.msg reqroster 1", "c06 h.msg reqroster 2", "c06 h.msg reqroster 0")
@@ -1780,5 +1865,5 @@ func c06gen(c *h.Ctx, yield func(*h.Case)) {
 	emit("malformed-lines", []string{"c06 roster 1 1 0", "c06 tree 1 1 1 0/0:0", "c06 roster 1 1 0 3/4,5/6", "c06 tree 1 1 1 0/3:1", "c06 tree 1 1 1 2/3:0",
 		"c06 marshal-rt 9 1", "c06 maketree T1,R1,1 1", "c06 strip 1 9", "c06 equal 1 9", "c06 frommarshal junk 1", "c06 frommarshal empty 9", "c06 binaryun junk x",
 		"c06 binaryun splice 9 1", "c06 binaryun", "c06 roster 2 2 0 3/-,5/6", "c06 tree 2 2 2 0/3:0", "c06 h.msg roster 2", "c06 h.msg resptree T1,R2,1;5/5:0 2", "c06 maketree X1,R1,1;3/3:0 1", "c06 h.msg tm T1,R1,1;3/3:1", "c06 h.msg frob 1", "c06 h.request x", "c06 h.reqfail", "c06 h.reqsend y", "c06 frob",
-		"c06 gtree 1 1 1 2 0", "c06 gtree 1 1 9 2 0 0/3:0", "c06 gtree 1 1 1 0 0 0/3:0", "c06 gtree 1 1 1 2 7 0/3:0", "c06 gtree 1 1 1 x 0 0/3:0"})
+		"c06 sibling 9 3", "c06 sibling 1", "c06 sibling 1 99", "c06 sibling x 3", "c06 gtree 1 1 1 2 0", "c06 gtree 1 1 9 2 0 0/3:0", "c06 gtree 1 1 1 0 0 0/3:0", "c06 gtree 1 1 1 2 7 0/3:0", "c06 gtree 1 1 1 x 0 0/3:0"})
 }
